@@ -259,8 +259,7 @@ CHECKS = {
              "(DOTALL statement regexes, guarded stack indices, parse sites "
              "converting SyntaxError).  Chains are followed inside one "
              "function (parameters are assumed to be faithful tokens).   "
-             "Known findings: KeyError / LookupError for undeclared prefixes "
-             "/ unknown expression types; expression-error tokens are "
+             "Known findings: expression-error tokens are "
              "entity-decoded / un-escaped (';;', '\\|') copies of the source "
              "text; entity decoding before the clause split rejects "
              "tal:define=\"x a&amp;b; y 2\"."),
